@@ -52,6 +52,12 @@ def main():
                 run_demo = f"/venv/bin/python _out/demo{n}.py"
                 rc0, out0 = sh(run_demo, cwd=wt, env=env)
                 rca, outa = sh(f"git apply {patch}", cwd=wt)
+                if rca:  # /repo moved on while the sub-agent worked: merge three-way and keep the re-diffed change
+                    rca, outa = sh(f"git apply --3way {patch} && git reset -q", cwd=wt)
+                    if not rca:
+                        _, fresh = sh("git diff -- aw_core aw_datastore aw_transform aw_query", cwd=wt)
+                        patch = os.path.join(wt, "_out", "rediffed.diff")
+                        open(patch, "w").write(fresh)
                 if rca:
                     print(name, "REJECTED: patch does not apply:", outa[-300:])
                     continue
